@@ -182,7 +182,7 @@ Accepts(target, kind) ==
       [] target = "expr"  -> kind = "expr"
 AcceptOk(target, kind, utf8ok, obs) ==
     IF ~Accepts(target, kind) THEN IsCmdErr(obs)
-    ELSE IF target = "utf8" /\ ~utf8ok THEN Rejected(obs)
+    ELSE IF target = "utf8" /\ ~utf8ok THEN IsCmdErr(obs)          \* text that is not UTF-8: a data fault (command error)
     ELSE obs.k = "ok" /\ obs.same          \* the payload handed out is the element's payload
 
 (* ---------------- <numeric_value> (C17) ---------------- *)
